@@ -113,6 +113,21 @@ class Normalizer:
             ret, eff = res[1], res[2]
         return ('fn', self.finalize(eff), self.finalize(ret))
 
+    def run_env(self):
+        """Normal form of the final environment of a body that falls off its end (methods that only store attributes):
+        -> {name: term} or None when some path returns a value."""
+        env = {}
+        for p in self.params:
+            env[p] = ('p', self.param_index[p])
+        env['$eff'] = ('eff0',)
+        body = self.fn.body
+        if body and isinstance(body[0], ast.Expr) and isinstance(body[0].value, ast.Constant) and isinstance(body[0].value.value, str):
+            body = body[1:]
+        res = self.block(body, env)
+        if res[0] != 'env':
+            return None
+        return {k: self.finalize(v) for k, v in res[1].items()}
+
     # ------------------------------------------------------------------ statements
     def block(self, stmts, env):
         """-> ('ret', term, eff) | ('env', env)"""
@@ -325,7 +340,13 @@ class Normalizer:
                 return ('mod', b[1] + '.' + e.attr)
             if e.attr == 'T':
                 return self.transpose(b)
-            return ('attr', b, e.attr)
+            # reading back an attribute this body stored: attr(setattr(x, f, v), f) == v
+            cur = b
+            while isinstance(cur, tuple) and cur and cur[0] == 'setattr':
+                if cur[2] == e.attr:
+                    return cur[3]
+                cur = cur[1]
+            return ('attr', cur, e.attr)
         if isinstance(e, ast.UnaryOp):
             v = self.expr(e.operand, env)
             if isinstance(e.op, ast.USub):
